@@ -31,6 +31,8 @@ pub struct Bounds {
 fn bounds(tier: Tier, group: usize) -> Bounds {
     match (tier, group) {
         (Tier::Quick, 0) => Bounds { deviations: 1, depth: 5 },
+        (Tier::Quick, 3) => Bounds { deviations: 1, depth: 4 },
+        (Tier::Thorough, 3) => Bounds { deviations: 2, depth: 5 },
         (Tier::Quick, _) => Bounds { deviations: 1, depth: 3 },
         (Tier::Thorough, 0) => Bounds { deviations: 2, depth: 6 },
         (Tier::Thorough, _) => Bounds { deviations: 1, depth: 6 },
@@ -38,7 +40,7 @@ fn bounds(tier: Tier, group: usize) -> Bounds {
 }
 
 /// (group, model): group 0 = single constraint models, 1 = two-constraint models,
-/// 2 = cumulative variants
+/// 2 = cumulative variants, 3 = two-profile cumulative sets
 fn models(tier: Tier) -> Vec<(usize, Model)> {
     let mut v: Vec<(usize, Model)> = vec![];
     match tier {
@@ -47,12 +49,14 @@ fn models(tier: Tier) -> Vec<(usize, Model)> {
             v.extend(gen::m2(0).into_iter().step_by(23).map(|m| (1, m)));
             v.extend(gen::m3(0).into_iter().step_by(9).map(|m| (1, m)));
             v.extend(gen::m5(0).into_iter().step_by(9).map(|m| (1, m)));
+            v.extend(gen::m7(0).into_iter().step_by(7).map(|m| (1, m)));
         }
         Tier::Thorough => {
             v.extend(gen::m1(1).into_iter().map(|m| (0, m)));
             v.extend(gen::m2(1).into_iter().step_by(29).map(|m| (1, m)));
             v.extend(gen::m3(1).into_iter().step_by(5).map(|m| (1, m)));
             v.extend(gen::m5(1).into_iter().step_by(3).map(|m| (1, m)));
+            v.extend(gen::m7(1).into_iter().step_by(2).map(|m| (1, m)));
         }
     }
     // cumulative: 3-task sets under all 144 variants
@@ -64,6 +68,12 @@ fn models(tier: Tier) -> Vec<(usize, Model)> {
     for ts in sets.iter().step_by(stride) {
         for o in CumOpts::all() {
             v.push((2, ts.model(o)));
+        }
+    }
+    // cumulative: several profiles propagating on one task in a single invocation
+    for ts in c08::profile_sets() {
+        for o in CumOpts::all() {
+            v.push((3, ts.model(o)));
         }
     }
     v
